@@ -57,6 +57,25 @@ class TraceConc(X.ConcBase):
             self.items_u.append({"n": 2000 + j, "s": "C", "k": "U"})
 
 
+EMPTY_OBS = {"lst": [], "bwd": [], "size": [], "head": [], "tail": [], "truth": [], "ch": [], "links": [], "val": [],
+             "os": [], "orev": [], "olen": []}
+
+
+def sane(obs):
+    """no marker of a broken structure (unknown node, endless walk, unreachable node) and walks that agree: the
+    recorder can go on choosing calls from this observation (TLC judges the observation itself in any case)"""
+    ids = [x for s in obs["lst"] + obs["bwd"] + obs["ch"] for x in s] + obs["head"] + obs["tail"] + [x for t in obs["links"] for x in t]
+    if any(x < 0 for x in ids):
+        return False
+    seen = [x for s in obs["lst"] + obs["ch"] for x in s]
+    if len(seen) != len(set(seen)):
+        return False
+    for fwd, bwd, size, head, tail in zip(obs["lst"], obs["bwd"], obs["size"], obs["head"], obs["tail"]):
+        if bwd != fwd[::-1] or size != len(fwd) or head != (fwd[0] if fwd else 0) or tail != (fwd[-1] if fwd else 0):
+            return False
+    return True
+
+
 def _pick(rng, seq):
     return seq[rng.randrange(len(seq))]
 
@@ -98,9 +117,29 @@ class Recorder(object):
         ev = dict(c)
         ev.pop("how", None)
         ev["res"] = res
-        ev["obs"] = self.obs()
+        if c["op"] in ("lclear", "lsetstate") and res["t"] == "ok":
+            # what becomes of the nodes a cleared list held is not specified: the caller forgets them
+            keep = {x for j, s in enumerate(before["lst"]) if j != c["l"] - 1 for x in s} | {x for s in before["ch"] for x in s}
+            try:
+                keep |= set(self.w.walk(self.w.lists[c["l"] - 1].head_node, "next_node", len(self.w.nodes) + 2))
+            except (IndexError, X.Endless):
+                pass
+            self.w.keep_only(keep)
+        try:
+            ev["obs"] = self.obs()
+        except X.Endless:
+            ev["obs"] = dict(self.events[-1]["obs"] if self.events else EMPTY_OBS, val=["observation does not end"])
+            self.events.append(ev)
+            self.stopped = True
+            return res
         self.events.append(ev)
-        self._track_iterators(c, res, before)
+        if res["t"] == "?" or not sane(ev["obs"]):
+            self.stopped = True       # the objects are broken: TLC judges the history up to here
+            return res
+        try:
+            self._track_iterators(c, res, before)
+        except (KeyError, IndexError, StopIteration):
+            self.stopped = True
         return res
 
     def _track_iterators(self, c, res, before):
@@ -187,7 +226,10 @@ class Recorder(object):
             menu += ["spair"] * 6 + ["sunary"] * 3 + ["sorted", "spickle"]
         for _ in range(30):
             kind = _pick(rng, menu)
-            c = self.gen(kind, st, live_l, free, detached)
+            try:
+                c = self.gen(kind, st, live_l, free, detached)
+            except (KeyError, IndexError, StopIteration):
+                return None           # the observation does not make sense any more: stop here
             if c is not None:
                 return self.perform(c)
         return None
@@ -355,11 +397,16 @@ class Recorder(object):
         if kind in ("ofirst", "olast"):
             return C(kind, l=s_, a=item(0.85))
         if kind in ("obefore", "oafter"):
-            return C(kind, l=s_, a=item(0.85), b=item(0.85))
+            a, b = item(0.85), item(0.85)
+            if a["n"] == b["n"] and not any(p["n"] == a["n"] for p in present):
+                return None           # an absent item relative to itself: not specified
+            return C(kind, l=s_, a=a, b=b)
         if kind == "ounhash":
             op = _pick(rng, ["oadd", "oremove", "ohas", "ofirst", "olast", "obefore", "oafter"])
             u = _pick(rng, conc.items_u)
             if op in ("obefore", "oafter"):
+                if rng.random() < 0.2:
+                    return None       # (a == b and absent is not specified: unhashable items are never present)
                 return C(op, l=s_, a=u, b=item(0.9)) if rng.random() < 0.5 else C(op, l=s_, a=item(0.9), b=u)
             return C(op, l=s_, a=u)
         if kind == "ocopy":
